@@ -18,15 +18,15 @@ import (
 
 type streamBase struct{ ctx context.Context }
 
-func (streamBase) SendHeader(metadata.MD) error  { return nil }
-func (streamBase) SetHeader(metadata.MD) error   { return nil }
-func (streamBase) SetTrailer(metadata.MD)        {}
-func (streamBase) Header() (metadata.MD, error)  { return nil, nil }
-func (streamBase) Trailer() metadata.MD          { return nil }
-func (streamBase) CloseSend() error              { return nil }
-func (streamBase) RecvMsg(any) error             { return nil }
-func (streamBase) SendMsg(any) error             { return nil }
-func (s streamBase) Context() context.Context    { return s.ctx }
+func (streamBase) SendHeader(metadata.MD) error { return nil }
+func (streamBase) SetHeader(metadata.MD) error  { return nil }
+func (streamBase) SetTrailer(metadata.MD)       {}
+func (streamBase) Header() (metadata.MD, error) { return nil, nil }
+func (streamBase) Trailer() metadata.MD         { return nil }
+func (streamBase) CloseSend() error             { return nil }
+func (streamBase) RecvMsg(any) error            { return nil }
+func (streamBase) SendMsg(any) error            { return nil }
+func (s streamBase) Context() context.Context   { return s.ctx }
 
 // ---- leader under test: the harness is a follower ----------------------------------------------
 
